@@ -678,3 +678,63 @@ func sumMap(m map[string]int64) int64 {
 	}
 	return s
 }
+
+// ---------------------------------------------------------------------------------------
+// In-process monitor results (produced by goitin child processes, merged by goitmon)
+
+type InResult struct {
+	Evals     int64            `json:"evals"`
+	Oracles   map[string]int64 `json:"oracles"`
+	Counts    map[string]int64 `json:"counts"`
+	Classes   map[string]int64 `json:"classes"`
+	Failures  []Failure        `json:"failures"`
+	FailCount int64            `json:"fail_count"`
+	Samples   []any            `json:"samples"`
+	Notes     []string         `json:"notes"`
+}
+
+func NewInResult() *InResult {
+	return &InResult{Oracles: map[string]int64{}, Counts: map[string]int64{}, Classes: map[string]int64{}}
+}
+
+// Merge folds an in-process result into the run context. Returns the number of new violations.
+func (c *Ctx) Merge(r *InResult, shard int) int {
+	c.mu.Lock()
+	c.evaluations += r.Evals
+	for k, v := range r.Oracles {
+		c.oracles[k] += v
+	}
+	for k, v := range r.Counts {
+		c.counts[k] += v
+	}
+	for k, v := range r.Classes {
+		c.classes[k] += v
+	}
+	for _, s := range r.Samples {
+		if len(c.samples) < 5 {
+			c.samples = append(c.samples, s)
+		}
+	}
+	for _, n := range r.Notes {
+		if len(c.notes) < 50 {
+			c.notes = append(c.notes, n)
+		}
+	}
+	c.mu.Unlock()
+	nv := 0
+	var viol []Failure
+	for _, f := range r.Failures {
+		f.Hist = shard
+		if c.Fail(f) {
+			nv++
+			viol = append(viol, f)
+		}
+	}
+	if len(viol) > 0 {
+		if len(viol) > 20 {
+			viol = viol[:20]
+		}
+		c.WriteWitness(&Witness{Kind: "custom", Hist: shard, Failures: viol})
+	}
+	return nv
+}
